@@ -108,7 +108,11 @@ def run_tu(ctx, harness, tu, lines, tag):
     open(path, 'w').write('\n'.join(lines) + '\n')
     rc, out, err = ctx.run_lines([harness, 'sched'], path)
     if rc != 0 or len(out) != len(lines):
-        return None, err[-600:] or 'harness printed %d lines for %d cases' % (len(out), len(lines))
+        # the real code crashed (assertion / signal / sanitizer): find the input.  The harness prints one line per
+        # finished case, so the culprit is the first case without output.
+        i = len(out)
+        culprit = lines[i] if i < len(lines) else None
+        return None, (culprit, (err[-600:] or 'harness printed %d lines for %d cases' % (len(out), len(lines))))
     return out, None
 
 
@@ -124,7 +128,8 @@ def oracle_and_annotate(ctx, harnesses, cases, tag, stats):
             continue
         out, err = run_tu(ctx, harnesses[tu], tu, lines, tag)
         if out is None:
-            bad.append((tu, '(harness %s)' % TU_NAME[tu], 'harness crashed: ' + err)); continue
+            culprit, msg = err
+            bad.append((tu, culprit or '(harness %s)' % TU_NAME[tu], 'the real container crashed (assertion/signal) on this history: ' + msg)); continue
         ctx.evaluations += len(lines)
         for c, o in zip(lines, out):
             parts = o.split(' # ')
